@@ -71,7 +71,7 @@ package calcium
 //@ # assumed: the store returns the workloads of the requested IDs in request order
 //@ func (Store) GetWorkloads
 //@   ensures err == nil ==> len(result0) == len(IDs) && (arr(result0) == 0 || (allocated(result0) && fresh(result0)))
-//@                && forall k :: 0 <= k && k < len(result0) ==> result0[k] != nil && allocated(result0[k]) && result0[k].ID == atcall(Store.GetWorkloads, IDs[k])
+//@                && forall k :: 0 <= k && k < len(result0) ==> result0[k] != nil && allocated(result0[k]) && result0[k].ID == IDs[k]
 //@ func (Store) CreateLock
 //@   ensures err == nil ==> result0 != nil
 
@@ -95,3 +95,16 @@ package calcium
 //@     invariant forall a, b :: 0 <= a && a < b && b < len(ns) ==> keyOf(ns[a]) <= keyOf(ns[b])
 //@     invariant forall a :: 0 <= a && a < len(ns) ==> ns[a] != nil
 //@     invariant forall k string :: k in locks ==> exists a :: 0 <= a && a <= rangeindex && keyOf(ns[a]) == k
+
+//@ # Workload locks are taken in strictly ascending workload-ID order, each ID once. (The lock key is a fixed
+//@ # prefix followed by the ID, so key order is ID order: trusted string fact.)
+//@ func (*Calcium) withWorkloadsLocked
+//@   requires c != nil && c.store != nil && f != nil
+//@   modifies IDs[_]
+//@   assert[C20.workload-order] before call doLock#1: forall k string :: k in locks ==> k < workload.ID
+//@   loop 1:
+//@     modifies locks, workloads
+//@     invariant fresh(locks) && allocated(locks) && locks != nil && fresh(workloads) && allocated(workloads) && workloads != nil && locks != workloads
+//@     invariant forall a, b :: 0 <= a && a < b && b < len(cs) ==> cs[a].ID < cs[b].ID
+//@     invariant forall a :: 0 <= a && a < len(cs) ==> cs[a] != nil
+//@     invariant forall k string :: k in locks ==> exists a :: 0 <= a && a <= rangeindex && cs[a].ID == k
